@@ -132,7 +132,8 @@ class ControlFlowTransformer(converter.Base):
     return assignments
 
   def _get_block_basic_vars(self, modified, live_in, live_out):
-    nonlocals = self.state[_Function].scope.nonlocals
+    fn_scope = self.state[_Function].scope
+    nonlocals = fn_scope.nonlocals | fn_scope.globals
     basic_scope_vars = []
     for s in modified:
       if s.is_composite():
